@@ -399,6 +399,11 @@ class Executor:
         segs = path_segments(t)
         if len(segs) >= 2 and segs[-2] in ENUMS and segs[-1] in ENUMS[segs[-2]]:
             return Adt(segs[-2], segs[-1], [])     # unit variant used as a constant
+        std_consts = {"core::f64::<impl f64>::EPSILON": 2.220446049250313e-16, "core::f64::<impl f64>::MAX": 1.7976931348623157e308,
+                      "core::f64::<impl f64>::MIN": -1.7976931348623157e308, "core::f64::<impl f64>::MIN_POSITIVE": 2.2250738585072014e-308,
+                      "core::f64::<impl f64>::INFINITY": float("inf"), "core::f64::<impl f64>::NEG_INFINITY": float("-inf")}
+        if t.strip() in std_consts:
+            return Sc("f64", z3.FPVal(std_consts[t.strip()], F64))
         named = getattr(self, "const_values", None)
         if named and t.strip() in named:
             return named[t.strip()]               # integer `const` item of the crate, value read from its source by the kernel
@@ -430,7 +435,16 @@ class Executor:
         if k == "use":
             return self.operand(st, fr, rv.a[0])
         if k in ("ref", "rawref"):
-            cell, path = self.resolve(st, fr, rv.a[0])
+            place = rv.a[0]
+            if place.proj and place.proj[-1][0] == "deref":
+                # `&*x` where x is a string literal / opaque constant (itself a reference value in this model): x again
+                try:
+                    base = self.read_place(st, fr, Place(place.local, place.proj[:-1]))
+                except Inconclusive:
+                    base = None
+                if isinstance(base, Opaque) and base.tag in ("strlit", "const"):
+                    return base
+            cell, path = self.resolve(st, fr, place)
             return Ref(cell, path)
         if k == "binop":
             a = self.operand(st, fr, rv.a[1])
